@@ -52,6 +52,15 @@ static KSI_LIST(KSI_HashChainLink) *mk_links(char *spec, int *err) {
 			size_t n; unsigned char *b = unhex(f[3], &n); KSI_OctetString *o = NULL;
 			KSI_OctetString_new(ctx, b, n, &o); free(b);
 			KSI_HashChainLink_setLegacyId(l, o);
+		} else if (f[2][0] == 'M') {
+			/* metadata built through the API: client id given as bytes incl. the terminating NUL */
+			size_t n; unsigned char *b = unhex(f[3], &n); KSI_MetaDataElement *m = NULL; KSI_Utf8String *cid = NULL;
+			int r = KSI_MetaDataElement_new(ctx, &m);
+			if (r == KSI_OK) r = KSI_Utf8String_new(ctx, (const char *)b, n, &cid);
+			if (r == KSI_OK) r = KSI_MetaDataElement_setClientId(m, cid);
+			free(b);
+			if (r != KSI_OK) { *err = 4; KSI_Utf8String_free(cid); KSI_MetaDataElement_free(m); KSI_HashChainLink_free(l); break; }
+			KSI_HashChainLink_setMetaData(l, m);
 		} else {
 			size_t n; unsigned char *b = unhex(f[3], &n); KSI_TLV *t = NULL; KSI_MetaDataElement *m = NULL;
 			int r = KSI_TLV_parseBlob(ctx, b, n, &t);
